@@ -210,7 +210,7 @@ mutant("c20_iter_no_exclude_dirs", "C20", "FilesystemRegistry.__iter__ without e
             name, _ = splitext(f.name)
             yield name''')])
 mutant("c20_no_id_reset", "C20", "FilesystemRegistry.__getitem__ keeps the GenBank id", [
-    (BASE, "                    record.id, _ = splitext(name)\n", "                    _ = splitext(name)\n")])
+    (BASE, "                    record.id = name\n", "                    record.name = name\n")])
 mutant("c20_absent_returns_none", "C20", "absent keys of a CombinedRegistry answer None", [
     (BASE, '''    def __getitem__(self, item):
         return self._data[item]
@@ -243,11 +243,13 @@ mutant("c20_partial_cache", "C20", "embedded data filled incrementally into a di
 mutant("c20_ext_prefix_match", "C20", "files matched by extension prefix (*.gb*)", [
     (BASE, '        return ["*.{}".format(extension) for extension in self._extensions]', '        return ["*.{}*".format(extension) for extension in self._extensions]')])
 mutant("c20_lookup_first_listing", "C20", "directory lookups served from a listing cached at first use", [
-    (BASE, '''        for name in files:
-            if self.fs.isfile(name):''', '''        if not hasattr(self, "_names"):
-            self._names = set(f.name for f in self.fs.filterdir("/", files=self._files, exclude_dirs=["*"]))
-        for name in files:
-            if name in self._names:''')])
+    (BASE, '''        for f in self.fs.filterdir("/", files=self._files, exclude_dirs=["*"]):
+            name, _ = splitext(f.name)
+            if name == item:''', '''        if not hasattr(self, "_listing"):
+            self._listing = list(self.fs.filterdir("/", files=self._files, exclude_dirs=["*"]))
+        for f in self._listing:
+            name, _ = splitext(f.name)
+            if name == item:''')])
 
 
 def main(argv):
